@@ -23,7 +23,7 @@ META = {
     "assumptions": ["pure-Python predicate evaluator over exact field values is the reference", "datetime thresholds parsed by an independent integer-arithmetic parser"],
     "deciding": ["post:filter", "post:filter_spatial", "history:order/grouping/idempotence"],
 }
-META["added"] = 'Added: histories that leave filters set on the source, origin_time thresholds between two integer milliseconds, zero-valued attributes and thresholds, catalogs already bound to another region (constructor or earlier filter_spatial) before filter_spatial(region). events on the exclusive outer east / north edge with no event beyond the box. empty statement lists.'
+META["added"] = 'Added: histories that leave filters set on the source, origin_time thresholds between two integer milliseconds, zero-valued attributes and thresholds, catalogs already bound to another region (constructor or earlier filter_spatial) before filter_spatial(region). events on the exclusive outer east / north edge with no event beyond the box. empty statement lists. NaN attributes.'
 MANIFEST = {
     "technique": "runtime post-conditions with OLD snapshots on the real filter / filter_spatial (sub-sequence, bit-identical rows, source untouched when in_place=False, no shared memory) + pure-Python predicate reference + sequential history checker over permutations, groupings, re-application and mixed in_place histories",
     "level_text": "Every call of filter/filter_spatial in the workload is checked against OLD state (kept rows are a bit-identical sub-sequence; source untouched and unshared with in_place=False); kept ids are compared with a pure-Python predicate evaluator; for each case all permutations and all sequential groupings of up to 4 statements, re-application and in_place variants must give the same catalog; datetime statements must equal the origin-time statement of the same instant.",
@@ -40,6 +40,11 @@ def shards(tier):
 
 def rows_of(cat):
     return cat.catalog.tolist()
+
+
+def canon_rows(rows):
+    """Rows with NaN fields made comparable (NaN != NaN would make identical rows look different)."""
+    return [tuple("nan" if isinstance(v, float) and v != v else v for v in r) for r in rows]
 
 
 def install(ctx):
@@ -62,8 +67,8 @@ def install(ctx):
             if name == "filter_spatial" and len(args) > 3:
                 in_place = args[3]
             case = {"exec": "noop", "args": {}}
-            res_rows = result.catalog.tolist()
-            it = iter(snap["rows"])
+            res_rows = canon_rows(result.catalog.tolist())
+            it = iter(canon_rows(snap["rows"]))
             if not all(any(r == o for o in it) for r in res_rows):
                 ctx.violate("%s: kept events are not a bit-identical sub-sequence of the source events" % name, case,
                             observed=res_rows[:3], tags={"api": name, "clause": "subsequence", "in_place": bool(in_place)})
@@ -114,6 +119,11 @@ def gen_catalog(r, n):
         pool_t[int(r.integers(0, 6))] = 0          # the epoch instant itself; zero is a legitimate value for every field
     pools = {"lat": numpy.append(numpy.round(r.uniform(-60, 60, 4), 1), 0.0), "lon": numpy.append(numpy.round(r.uniform(-170, 170, 4), 1), 0.0),
              "dep": numpy.array([0.0, 5.0, 10.0, 33.0, 70.5]), "mag": numpy.array([4.0, 4.95, 5.0, 5.05, 6.1, 7.0])}
+    if r.uniform() < 0.25:
+        # a missing depth / magnitude is stored as NaN: no comparison statement is true for such an event
+        pools["dep"] = numpy.append(pools["dep"], numpy.nan)
+        if r.uniform() < 0.5:
+            pools["mag"] = numpy.append(pools["mag"], numpy.nan)
     ev = []
     for i in range(n):
         ev.append(("e%d" % i, int(r.choice(pool_t)) if r.uniform() < 0.8 else int(r.integers(-2000000000000, 4000000000000)),
@@ -152,7 +162,8 @@ def gen_statements(r, pool_t, pools, k):
                 out.append("origin_time %s %s" % (op, str(t) if r.uniform() < 0.5 else repr(float(t))))
         else:
             key = {"latitude": "lat", "longitude": "lon", "depth": "dep", "magnitude": "mag"}[a]
-            v = float(r.choice(pools[key])) + float(r.choice([0, 0, 0, 0.05, -0.05]))
+            finite = pools[key][numpy.isfinite(pools[key])]
+            v = float(r.choice(finite)) + float(r.choice([0, 0, 0, 0.05, -0.05]))
             out.append("%s %s %s" % (a, op, spell(round(v, 6), r)))
     return out
 
@@ -199,7 +210,7 @@ def ex_filter(ctx, ev, statements, seed=0):
 
     def expect(rows_got, what, extra=None):
         ctx.mon("history:order/grouping/idempotence", 1)
-        if rows_got is not None and rows_got != want:
+        if rows_got is not None and canon_rows(rows_got) != canon_rows(want):
             ctx.violate("filter result is not exactly the events satisfying every statement (%s)" % what, rc,
                         observed={"kept_ids": [r[0] for r in rows_got][:12], "n": len(rows_got)},
                         expected={"kept_ids": [r[0] for r in want][:12], "n": len(want)}, tags=dict(tags, history=what, **(extra or {})))
@@ -250,7 +261,7 @@ def ex_filter(ctx, ev, statements, seed=0):
             f, op, thr = parse_statement(s)
             a = got_rows(lambda: mk(ev).filter(s, in_place=False))
             b = got_rows(lambda: mk(ev).filter("origin_time %s %d" % (op, thr), in_place=False))
-            if a is not None and b is not None and a != b:
+            if a is not None and b is not None and canon_rows(a) != canon_rows(b):
                 ctx.violate("a datetime statement selects different events than the origin-time statement for the same instant", rc,
                             observed={"datetime": [r[0] for r in a][:10]}, expected={"origin_time": [r[0] for r in b][:10]}, tags=dict(tags, clause="datetime"))
     eq_thr = any(any(OPS["=="](r[{"origin_time": 1, "latitude": 2, "longitude": 3, "depth": 4, "magnitude": 5}[parse_statement(s)[0]]], parse_statement(s)[2])
@@ -339,7 +350,7 @@ def ex_load(ctx, ev, statements, lat_case, seed=0):
         ctx.mon("history:load(apply_filters)", 1)
         if ok != ok2:
             ctx.violate("load_catalog(apply_filters=True) and load-then-filter disagree on failure", rc, observed=[repr(a)[:100], repr(b)[:100]], tags={"clause": "load"})
-        elif ok and rows_of(a) != rows_of(b):
+        elif ok and canon_rows(rows_of(a)) != canon_rows(rows_of(b)):
             ctx.violate("load_catalog(apply_filters=True) != filter then filter_spatial on the same file", rc,
                         observed=[r[0] for r in rows_of(a)][:8], expected=[r[0] for r in rows_of(b)][:8], tags={"clause": "load"})
     finally:
